@@ -17,10 +17,10 @@ func init() {
 	registerProp(&Property{
 		ID: "C02", Kind: "necessary structural clauses",
 		Tech:  "dominance/ordering rules on Layout, effect-contract checks (Reverse involution, inverse pairs), field-ownership table, typed-AST output mapping",
-		Rules: []string{"ORD-2", "ORD-3", "EFF-1", "EFF-2", "PAIR-2", "PAIR-3", "OWN-1", "SPLIT-1", "POP-1", "OPTS-1", "GLOB-1"},
+		Rules: []string{"ORD-2", "ORD-3", "EFF-1", "EFF-2", "PAIR-2", "PAIR-3", "OWN-1", "SPLIT-1", "POP-1", "OPTS-1", "GLOB-1", "POST-1"},
 		Explanation: "Decides the undo structure and the output mapping, not the multiset equality itself: ORD-2 restore and un-reverse happen after the pipeline and before collection; EFF-1 Reverse is an involution on direction/flag/adjacency; EFF-2 fragments and self-loops: every add has its remove; " +
 			"PAIR-2 un-reverse exactly the flagged edges; PAIR-3 ID/direction/size copied from the right fields, helper nodes filtered unless requested, no other node or edge dropped; OWN-1 Edge.Points written only by routers (which never see self-loops), Node.W/H written only by the two option closures, IsVirtual/ID only at construction; " +
-			"ORD-3 fixed size first, per-node override second and only for listed nodes; SPLIT-1 the component traversal records every node and edge it reaches; POP-1 every row of the source becomes an edge (no row is skipped or folded into another); OPTS-1 + GLOB-1 the sizes are the ones configured for this call: each size option stores its own argument into the record, and the record starts from defaults that no earlier call can have written (the default options hold no pointer into shared storage). Not decided: that break/merge are exact inverses on every chain (the count of edges).",
+			"ORD-3 fixed size first, per-node override second and only for listed nodes; SPLIT-1 the component traversal records every node and edge it reaches; POP-1 every row of the source becomes an edge (no row is skipped or folded into another); OPTS-1 + GLOB-1 the sizes are the ones configured for this call: each size option stores its own argument into the record, and the record starts from defaults that no earlier call can have written (the default options hold no pointer into shared storage). POST-1 (merge clause): the routing phase merges the fragments of long edges back on every path, whatever router is selected. Not decided: that break/merge are exact inverses on every chain (the count of edges).",
 		Assumptions: []string{"clauses are necessary, not sufficient"},
 	})
 	registerProp(&Property{
@@ -169,7 +169,7 @@ func init() {
 	registerProp(&Property{
 		ID: "C19", Core: []string{"FUN-1"}, Kind: "necessary structural clauses (vertex provenance, orientation of the result, symmetry of the funnel)",
 		Tech:  "typed-AST provenance scan of the triangulation, SSA first/last-element resolution on the router's returns, mirror-image comparison of the funnel's sibling cases",
-		Rules: []string{"TRI-1", "PATH-1", "FUN-1"},
+		Rules: []string{"TRI-1", "PATH-1", "FUN-1", "AXIS-1"},
 		Explanation: "Three clauses of the corridor router that are visible in the shape of the code. TRI-1: the special-cased triangulation computes no coordinate - every triangle vertex is a copy of rectangle coordinates (X from an X, Y from a Y), floats are only copied, selected and compared - so the funnel can bend only at corridor vertices, which is where a Euclidean shortest path bends. " +
 			"PATH-1: on every return the polyline lists the end point first and the start point last (the one-triangle shortcut by position, the accumulated path by its first append and the closing guard). " +
 			"FUN-1 (sibling cross-check): the left-chain and right-chain cases of the funnel, and the two wedge tests they call, are mirror images (front <-> back, < <-> > on queue indices, clockwise <-> counter-clockwise), and each case touches only its own end of the queue. " +
